@@ -209,12 +209,15 @@ let run_op (c : ctx) (case : string) : string =
   | Bad_case s -> "BAD-CASE " ^ s
   | Model_stop s -> s
 
-(* schema table from argv; [with_schema case f] strips an "@name " prefix and runs f on that ctx *)
+(* schema table from argv; [with_schema case f] strips an "@name " prefix and runs f on that ctx.
+   [render_hook]: the per-type rendering put into every ctx (a driver may point it at a table of
+   real conversions reported by the harness; default = the model's render_default) *)
+let render_hook : (n -> n list -> n list) ref = ref render_default
 let ctx_table : (string * ctx Lazy.t) list Lazy.t = lazy (
   List.filter_map (fun a ->
     match String.index_opt a '=' with
     | Some i -> let name = String.sub a 0 i and path = String.sub a (i + 1) (String.length a - i - 1) in
-                Some (name, lazy (load_ctx path render_default))
+                Some (name, lazy (load_ctx path (fun ty v -> !render_hook ty v)))
     | None -> None) (List.tl (Array.to_list Sys.argv)))
 let with_schema (case : string) (f : ctx -> string -> 'a) : 'a =
   let tbl = Lazy.force ctx_table in
@@ -233,8 +236,9 @@ let with_schema (case : string) (f : ctx -> string -> 'a) : 'a =
                      (tag, printed value) pairs of p: and the elements of g:)
      "EXC ..."    -> Rejected
      anything else (CRASH, HANG, OOB, MODEL-FUEL, BAD-CASE) -> Abnormal.
-   The schema hypothesis wf_ctx of the theorems is evaluated on the loaded metadata: on a schema
-   that does not satisfy it every oracle result is 0. *)
+   The schema hypothesis wf_ctx of the theorems is evaluated on the loaded metadata by the probe
+   line "WF": the suite refuses to run when the first (quick tier) schema does not satisfy it and
+   records the answer for every schema in the evidence. *)
 exception Dump_syntax of string
 
 (* dump grammar (h_codec.cpp dump_mb):
@@ -333,7 +337,7 @@ let () = run_protocol (fun case0 impl -> with_schema case0 (fun c case ->
   | ["DEC"; "s"; hx] ->
       let bytes = nlist_of_hex hx in
       let m = string_of_res (dump_msg c) (strict_factory c bytes) in
-      let wf = wf_of c in
-      let oracle r = wf && c04_ok c bytes (outcome_of_line r) in
+      let oracle r = c04_ok c bytes (outcome_of_line r) in
       (m, oracle impl, oracle m)
+  | ["WF"] -> ((if wf_of c then "WF 1" else "WF 0"), true, true)
   | _ -> ("BAD-CASE C04 takes only DEC s <hex>", false, false)))
